@@ -158,8 +158,10 @@ def version_bulk(tier, shard, nshards, rec):
         for t in todo[:2]:
             rec.sample({'version': t})
         return
+    from pbt.runner import set_logging
     n = 0
     for a in range(shard, 256, nshards):
+        set_logging(a % 2 == 0)
         for b in range(256):
             for c in range(256):
                 try:
